@@ -176,11 +176,9 @@ class Shaper:
                     env[k] = self._alpha(k) if k != "<defs>" else e1[k]
             if s.orelse:
                 body_else = self._body(f, s.orelse, env)
-            else:
-                body_else = []
-            if body or body_else:
+                out.append(("forelse", ittext, body, body_else))
+            elif body:
                 out.append(("for", ittext, body))
-                out.extend(body_else)
             return
         if isinstance(s, ast.While):
             e1 = env
@@ -645,6 +643,9 @@ def _flat(term):
             yield from _flat(it[3])
         elif it[0] in ("for", "while"):
             yield from _flat(it[2])
+        elif it[0] == "forelse":
+            yield from _flat(it[2])
+            yield from _flat(it[3])
         elif it[0] == "handler":
             yield from _flat(it[1])
         elif it[0] == "alts":
@@ -665,6 +666,8 @@ def _subst_yield(term, body):
             out.append(("if", it[1], _subst_yield(it[2], body), _subst_yield(it[3], body)))
         elif it[0] in ("for", "while"):
             out.append((it[0], it[1], _subst_yield(it[2], body)))
+        elif it[0] == "forelse":
+            out.append((it[0], it[1], _subst_yield(it[2], body), _subst_yield(it[3], body)))
         else:
             out.append(it)
     return out
@@ -680,6 +683,8 @@ def _strip_reader(term):
             out.append(("if", it[1], _strip_reader(it[2]), _strip_reader(it[3])))
         elif it[0] in ("for", "while"):
             out.append((it[0], it[1], _strip_reader(it[2])))
+        elif it[0] == "forelse":
+            out.append((it[0], it[1], _strip_reader(it[2]), _strip_reader(it[3])))
         else:
             out.append(it)
     return out
@@ -760,6 +765,16 @@ def consumption(term, keep_src=False):
                 b = seq(it[2])
                 if b:
                     parts.append(f"for[{rn(it[1])}]{{{b}}}")
+            elif k == "forelse":
+                b = seq(_token_paths(it[2])) if (_dead(it[3]) and _breaks_after_tokens(it[2])) else seq(it[2])
+                if _dead(it[3]) and _breaks_after_tokens(it[2]):
+                    # `for x in xs: if p(x): <tokens>; break` / `else: raise`: the body runs at
+                    # most once and not running it raises: equivalent to the body once
+                    if b:
+                        parts.append(b)
+                else:
+                    e = seq(it[3])
+                    parts.append(f"for[{rn(it[1])}]{{{b}}}else{{{e}}}")
             elif k == "while":
                 b = seq(it[2])
                 parts.append(f"while{rn(it[1])}{{{b}}}")
@@ -787,6 +802,38 @@ def consumption(term, keep_src=False):
 def _dead(t):
     """a branch that certainly aborts (ends in raise) and consumes nothing we track"""
     return bool(t) and t[-1][0] == "raise" and not any(x[0] in ("V", "P", "R", "D", "T") for x in _flat(t))
+
+
+def _token_paths(body):
+    """body of an at-most-once search loop whose failure raises: keep only what the
+    token-emitting paths emit (a guard with an empty other side selects the element, it is
+    not an alternative encoding)"""
+    keep = [it for it in body if any(x[0] in ("V", "P", "R", "D", "T") for x in _flat([it]))]
+    if len(keep) == 1 and keep[0][0] == "if":
+        a, b = keep[0][2], keep[0][3]
+        ta = any(x[0] in ("V", "P", "R", "D", "T") for x in _flat(a))
+        tb = any(x[0] in ("V", "P", "R", "D", "T") for x in _flat(b))
+        if ta and not tb:
+            return _token_paths(a)
+        if tb and not ta:
+            return _token_paths(b)
+    return keep
+
+
+def _breaks_after_tokens(body):
+    """every token-emitting path through `body` leaves the enclosing loop by `break` right after"""
+    idx = [i for i, it in enumerate(body) if any(x[0] in ("V", "P", "R", "D", "T") for x in _flat([it]))]
+    if not idx:
+        return True
+    last = idx[-1]
+    if len(idx) > 1 and any(body[i][0] in ("V", "P", "R", "D", "T") for i in idx[:-1]) and body[last][0] == "if":
+        return False
+    it = body[last]
+    if any(x[0] == "break" for x in body[last + 1 :]):
+        return all(body[i][0] in ("V", "P", "R", "D", "T") for i in idx)
+    if it[0] == "if" and len(idx) == 1:
+        return _breaks_after_tokens(it[2]) and _breaks_after_tokens(it[3])
+    return False
 
 
 def has_unknown(term):
